@@ -41,7 +41,7 @@ def text_template(name, sbytes, mods, N, extra_rule_text=""):
             f.write("#define T_STRING_IDX 0\n")
     return Harness(
         name="H2_scan_" + name, src="c01/scan_text.c", defines=["-DVF_N=%d" % N], unwind=max(N, 2 * len(sbytes)) + 2,
-        gen=gen, timeout=600, flags=["--unwindset", "vf_init_tables.0:257"], desc="real AC walk + literal verification + match list on the image of: " + rule.strip(),
+        gen=gen, timeout=900, unwind_funcs={"vf_init_tables": 257, "spec_occ": (mods["xor"][1] - mods["xor"][0] + 3) if mods.get("xor") is not None else 4}, desc="real AC walk + literal verification + match list on the image of: " + rule.strip(),
         bounds="all buffers of length 0..%d (bytes and length symbolic); single block at base 0" % N,
         functions=["_yr_scanner_scan_mem_block", "yr_scan_verify_match", "_yr_scan_verify_literal_match", "_yr_scan_compare/_icompare/_wcompare/_wicompare/_xor_compare/_xor_wcompare",
                    "_yr_scan_match_callback", "_yr_scan_add_match_to_list"],
